@@ -105,7 +105,7 @@ def run_shard(spec):
         for k, (name, src, kind) in enumerate(files):
             d = os.path.join(tmp, "f%d" % k)
             os.mkdir(d)
-            with open(os.path.join(d, name), "w") as f:
+            with open(os.path.join(d, name), "w", encoding="utf-8") as f:
                 f.write(src)
             base = cliobs.run_cli([name], cwd=d)
             ref = child_obs(base, name)
@@ -175,9 +175,9 @@ def run_shard(spec):
             if sib and sib[1] is not None:
                 os.makedirs(os.path.join(d, "a"), exist_ok=True)
                 os.makedirs(os.path.join(d, "b"), exist_ok=True)
-                with open(os.path.join(d, "a", name), "w") as f:
+                with open(os.path.join(d, "a", name), "w", encoding="utf-8") as f:
                     f.write(sib[1])
-                with open(os.path.join(d, "b", name), "w") as f:
+                with open(os.path.join(d, "b", name), "w", encoding="utf-8") as f:
                     f.write(sib[0])
                 row = r.choice(pairwise(r))
                 opts = [o for o in argv_of(row) if True]
@@ -203,9 +203,18 @@ def run_shard(spec):
             # inline content vs the same content on disk (also content that does not end in a newline)
             flag = "--cfile" if name.endswith(".c") else "--hfile"
             full_src = src
-            for with_name, src in ((True, full_src), (False, full_src), (True, full_src.rstrip("\n")), (True, full_src + "\n")):
+            variants = [(True, full_src), (False, full_src), (True, full_src.rstrip("\n")), (True, full_src + "\n")]
+            # content a text-mode read could treat differently from a command-line string: byte order mark, characters
+            # outside ASCII, control characters (line ends stay \n: a text-mode read of \r\n is documented to translate)
+            hv = [(True, "\ufeff" + full_src), (True, full_src + "/* caf\u00e9 \u20ac \U0001f600 */\n"),
+                  (True, full_src + "/* page\fbreak \x0b \x85 \u2028 */\n"), (True, "\ufeff\n" + full_src),
+                  (True, full_src.replace("\n", "\n// \u00e9\u00e8\n", 1))]
+            variants.append(hv[k % len(hv)])
+            if spec.get("full", 0) > 1:
+                variants += [v for v in hv if v is not variants[-1]]
+            for with_name, src in variants:
                 if src != full_src:
-                    with open(os.path.join(d, name), "w") as f:
+                    with open(os.path.join(d, name), "w", encoding="utf-8") as f:
                         f.write(src)
                     ref = child_obs(cliobs.run_cli([name], cwd=d), name)
                     if ref is None:
@@ -213,7 +222,7 @@ def run_shard(spec):
                 inl_name = name if with_name else ("file.c" if flag == "--cfile" else "file.h")
                 if not with_name:
                     # the on-disk twin must carry the default name (header guard / 42 header follow the name)
-                    with open(os.path.join(d, inl_name), "w") as f:
+                    with open(os.path.join(d, inl_name), "w", encoding="utf-8") as f:
                         f.write(src)
                     twin = child_obs(cliobs.run_cli([inl_name], cwd=d), inl_name)
                 else:
@@ -251,7 +260,7 @@ def replay(case, sh):
             name = case["name"]
             for sub, txt in (("a", case["a"]), ("b", case["b"])):
                 os.makedirs(os.path.join(tmp, sub), exist_ok=True)
-                with open(os.path.join(tmp, sub, name), "w") as f:
+                with open(os.path.join(tmp, sub, name), "w", encoding="utf-8") as f:
                     f.write(txt)
             alone = cliobs.run_cli(case["argv"] + [os.path.join("b", name)], cwd=tmp)
             both = cliobs.run_cli(case["argv"] + [os.path.join("a", name), os.path.join("b", name)], cwd=tmp)
@@ -264,7 +273,7 @@ def replay(case, sh):
                 sh.violation("run_with_sibling_changes_findings", ("replay",), case, {})
             return
         name, src = case["name"], case["src"]
-        with open(os.path.join(tmp, name), "w") as f:
+        with open(os.path.join(tmp, name), "w", encoding="utf-8") as f:
             f.write(src)
         ref = child_obs(cliobs.run_cli([name], cwd=tmp), name)
         sh.evaluations += 1
@@ -272,7 +281,7 @@ def replay(case, sh):
             argv = [case["flag"] + "=" + src] + (["--filename", name] if case["with_name"] else [])
             inl = name if case["with_name"] else ("file.c" if case["flag"] == "--cfile" else "file.h")
             if not case["with_name"]:
-                with open(os.path.join(tmp, inl), "w") as f:
+                with open(os.path.join(tmp, inl), "w", encoding="utf-8") as f:
                     f.write(src)
                 ref = child_obs(cliobs.run_cli([inl], cwd=tmp), inl)
             got = child_obs(cliobs.run_cli(argv, cwd=tmp), inl)
